@@ -503,6 +503,10 @@ func fluentCase(seed uint64, idx int) *CaseSpec {
 				t.Add("fl.restart")
 			default:
 				lo, hi := uint64(1+r.IntN(9)), uint64(r.IntN(3))
+				if r.IntN(4) == 0 {
+					// back to the id the connection started with: an update like any other
+					lo, hi = initLo, initHi
+				}
 				c.Modify().UpdateElectionID(nil, lo, hi)
 				sentSoFar++
 				if !st.waitSent(sentSoFar, wd(3*time.Second)) {
